@@ -736,3 +736,30 @@ pub fn update_emissions_destination(marginfi_account: Pubkey, authority: Pubkey,
         vec![],
     )
 }
+
+/// Real `transfer_to_new_account` (new account `init`ed through the System Program CPI stub).
+#[allow(clippy::too_many_arguments)]
+pub fn transfer_to_new_account(
+    group: Pubkey,
+    old_marginfi_account: Pubkey,
+    new_marginfi_account: Pubkey,
+    authority: Pubkey,
+    fee_payer: Pubkey,
+    new_authority: Pubkey,
+    global_fee_wallet: Pubkey,
+) -> Instruction {
+    build(
+        marginfi::accounts::TransferToNewAccount {
+            group,
+            old_marginfi_account,
+            new_marginfi_account,
+            authority,
+            fee_payer,
+            new_authority,
+            global_fee_wallet,
+            system_program: system_program::ID,
+        },
+        marginfi::instruction::TransferToNewAccount {},
+        vec![],
+    )
+}
